@@ -527,6 +527,8 @@ func init() {
 		},
 		"internal/stringslite.Clone": func(fr *frame, args []value) value { return args[0] },
 		"strings.Clone":              func(fr *frame, args []value) value { return args[0] },
+		"os.ReadFile":        extReadFile,
+		"io/ioutil.ReadFile": extReadFile,
 		"errors.New": func(fr *frame, args []value) value {
 			if s, ok := args[0].(string); ok {
 				return fr.e.newError(s)
@@ -561,6 +563,41 @@ func init() {
 		"(*sync.WaitGroup).Wait": func(fr *frame, args []value) value {
 			w := fr.e.waitgroup(args[0].(*value))
 			fr.e.block("WaitGroup.Wait", func() bool { return w.n == 0 })
+			return nil
+		},
+		"(*sync.Map).Load": func(fr *frame, args []value) value {
+			m := fr.e.syncMap(args[0].(*value))
+			if en := m.find(fr.e, args[1]); en != nil {
+				return tuple{en.v, true}
+			}
+			return tuple{iface{}, false}
+		},
+		"(*sync.Map).Store": func(fr *frame, args []value) value {
+			fr.e.syncMapWrite(args[0].(*value))
+			fr.e.syncMap(args[0].(*value)).insert(fr.e, args[1], args[2])
+			return nil
+		},
+		"(*sync.Map).LoadOrStore": func(fr *frame, args []value) value {
+			m := fr.e.syncMap(args[0].(*value))
+			if en := m.find(fr.e, args[1]); en != nil {
+				return tuple{en.v, true}
+			}
+			fr.e.syncMapWrite(args[0].(*value))
+			m.insert(fr.e, args[1], args[2])
+			return tuple{args[2], false}
+		},
+		"(*sync.Map).Delete": func(fr *frame, args []value) value {
+			fr.e.syncMapWrite(args[0].(*value))
+			fr.e.syncMap(args[0].(*value)).delete(fr.e, args[1])
+			return nil
+		},
+		"(*sync.Map).Range": func(fr *frame, args []value) value {
+			for _, en := range fr.e.syncMap(args[0].(*value)).live() {
+				r := fr.e.call(fr, 0, args[1], []value{en.k, en.v})
+				if b, ok := r.(bool); ok && !b {
+					break
+				}
+			}
 			return nil
 		},
 		"(*sync.Once).Do": func(fr *frame, args []value) value {
@@ -865,5 +902,39 @@ func initFmt() {
 	}
 	externals["fmt.Fprint"] = func(fr *frame, args []value) value {
 		return out(fr, fr.e.sprint(args[1].([]value), false))
+	}
+}
+
+// extReadFile: the harness's virtual files (zzverif.SetFile); anything else
+// does not exist.
+func extReadFile(fr *frame, args []value) value {
+	name, _ := args[0].(string)
+	if content, ok := fr.e.files[name]; ok {
+		b := make([]value, len(content))
+		for i := 0; i < len(content); i++ {
+			b[i] = content[i]
+		}
+		return tuple{b, iface{}}
+	}
+	return tuple{[]value(nil), fr.e.newError("open " + name + ": no such file or directory")}
+}
+
+// sync.Map model: an insertion-ordered map keyed by the Map's address.  A
+// write to a sync.Map that is frozen (a package-level memo) is a frozen-write.
+func (e *Engine) syncMap(p *value) *omap {
+	if e.syncMaps == nil {
+		e.syncMaps = map[*value]*omap{}
+	}
+	m := e.syncMaps[p]
+	if m == nil {
+		m = newOmap(types.NewInterfaceType(nil, nil))
+		e.syncMaps[p] = m
+	}
+	return m
+}
+
+func (e *Engine) syncMapWrite(p *value) {
+	if e.frozen != nil {
+		e.checkFrozen(p)
 	}
 }
